@@ -234,6 +234,14 @@ class Repo:
         return fn, text
 
     # ------------------------------------------------------------------ digest
+    @staticmethod
+    def alpha(text: str) -> str:
+        """Key form of a source expression: invariant under renaming of variables and under mirrored comparisons.
+        Every bare name that is not called and not a well-known module / receiver becomes a positional placeholder
+        `_1, _2, ...` (first occurrence order); `a > b` is written `b < a`, `a >= b` as `b <= a`, and the operands of
+        `==` / `!=` are ordered.  Attribute names, string keys, constants and call targets are kept."""
+        return alpha_key(text)
+
     def note(self, mi: ModuleInfo):
         if mi.relpath not in self.consulted:
             self.consulted[mi.relpath] = hashlib.sha256(mi.source.encode()).hexdigest()[:16]
@@ -418,3 +426,84 @@ class Repo:
                 except AnalysisError:
                     pass
         return out
+
+
+_ALPHA_KEEP = {"self", "cls", "td", "torch", "F", "nn", "np", "math", "True", "False", "None", "len", "range", "int", "float", "bool", "str", "list", "tuple", "dict",
+               "set", "min", "max", "sum", "abs", "any", "all", "zip", "enumerate", "isinstance", "hasattr", "getattr", "slice", "print", "super", "type", "sorted", "reversed", "map"}
+_ALPHA_CACHE: Dict[str, str] = {}
+
+
+def alpha_key(text: str) -> str:
+    if text in _ALPHA_CACHE:
+        return _ALPHA_CACHE[text]
+    try:
+        tree = ast.parse(text, mode="eval")
+    except SyntaxError:
+        _ALPHA_CACHE[text] = text
+        return text
+    called = {id(n.func) for n in ast.walk(tree) if isinstance(n, ast.Call) and isinstance(n.func, ast.Name)}
+
+    class Mirror(ast.NodeTransformer):
+        def visit_Compare(self, node):
+            self.generic_visit(node)
+            if len(node.ops) == 1:
+                op, a, b = node.ops[0], node.left, node.comparators[0]
+                if isinstance(op, (ast.Gt, ast.GtE)):
+                    return ast.Compare(left=b, ops=[ast.Lt() if isinstance(op, ast.Gt) else ast.LtE()], comparators=[a])
+                if isinstance(op, (ast.Eq, ast.NotEq)) and ast.dump(a) > ast.dump(b):
+                    return ast.Compare(left=b, ops=[op], comparators=[a])
+            return node
+    tree = Mirror().visit(tree)
+
+    class Size(ast.NodeTransformer):
+        def visit_Subscript(self, node):
+            self.generic_visit(node)
+            if isinstance(node.value, ast.Attribute) and node.value.attr == "shape" and not isinstance(node.slice, (ast.Slice, ast.Tuple)):
+                return ast.Call(func=ast.Attribute(value=node.value.value, attr="size", ctx=ast.Load()), args=[node.slice], keywords=[])
+            return node
+    tree = Size().visit(tree)
+
+    class Axis(ast.NodeTransformer):
+        """x.m(dim=k) -> x.m(k), torch.f(x, dim=k) -> torch.f(x, k) for axis-taking calls; commutative operands ordered"""
+        M = {"sum", "mean", "amax", "amin", "argmax", "argmin", "cumsum", "softmax", "log_softmax", "squeeze", "unsqueeze", "all", "any", "prod", "std", "var", "max", "min"}
+        F = {"cat", "stack", "sum", "mean", "cumsum", "softmax", "argmax", "squeeze", "unsqueeze", "concat"}
+
+        def visit_Call(self, node):
+            self.generic_visit(node)
+            if isinstance(node.func, ast.Attribute):
+                torchy = isinstance(node.func.value, ast.Name) and node.func.value.id == "torch"
+                dk = [k for k in node.keywords if k.arg == "dim"]
+                if dk and ((not torchy and node.func.attr in self.M and not node.args) or (torchy and node.func.attr in self.F and len(node.args) == 1)):
+                    node.args = list(node.args) + [dk[0].value]
+                    node.keywords = [k for k in node.keywords if k.arg != "dim"]
+            return node
+
+        def visit_BinOp(self, node):
+            self.generic_visit(node)
+            if isinstance(node.op, (ast.Add, ast.Mult, ast.BitAnd, ast.BitOr)) and ast.dump(node.left) > ast.dump(node.right):
+                return ast.BinOp(left=node.right, op=node.op, right=node.left)
+            return node
+    tree = Axis().visit(tree)
+    ast.fix_missing_locations(tree)
+    names: Dict[str, str] = {}
+    # deterministic first-occurrence order = source order of the mirrored tree
+    order = []
+
+    def walk(n):
+        if isinstance(n, ast.Name):
+            order.append(n)
+        for ch in ast.iter_child_nodes(n):
+            walk(ch)
+    walk(tree)
+    for n in order:
+        if id(n) in called or n.id in _ALPHA_KEEP:
+            continue
+        if n.id not in names:
+            names[n.id] = f"_{len(names) + 1}"
+        n.id = names[n.id]
+    try:
+        out = ast.unparse(tree)
+    except Exception:
+        out = text
+    _ALPHA_CACHE[text] = out
+    return out
